@@ -414,36 +414,36 @@ macro_rules! site {
                 match mac {
                     QMacro::Iter => {
                         ecs_iter!($w, |$($params)*| {
-                            hook.visit(Visit { world: None, other: $other, ent: $ent, dir: $dir, cols: &mut [$($cols),*] }).iter()
+                            hook.visit(Visit { matched: <MatchedArchetype as Archetype>::ARCHETYPE_ID, world: None, other: $other, ent: $ent, dir: $dir, cols: &mut [$($cols),*] }).iter()
                         });
                         None
                     }
                     QMacro::IterDestroy => {
                         ecs_iter_destroy!($w, |$($params)*| {
-                            hook.visit(Visit { world: None, other: $other, ent: $ent, dir: $dir, cols: &mut [$($cols),*] }).destroy()
+                            hook.visit(Visit { matched: <MatchedArchetype as Archetype>::ARCHETYPE_ID, world: None, other: $other, ent: $ent, dir: $dir, cols: &mut [$($cols),*] }).destroy()
                         });
                         None
                     }
                     QMacro::IterDestroyUnit => {
                         // closure returning `()`: From<()> for EcsStepDestroy (always Continue)
                         ecs_iter_destroy!($w, |$($params)*| {
-                            let _ = hook.visit(Visit { world: None, other: $other, ent: $ent, dir: $dir, cols: &mut [$($cols),*] });
+                            let _ = hook.visit(Visit { matched: <MatchedArchetype as Archetype>::ARCHETYPE_ID, world: None, other: $other, ent: $ent, dir: $dir, cols: &mut [$($cols),*] });
                         });
                         None
                     }
                     QMacro::IterDestroyStep => {
                         // closure returning EcsStep: From<EcsStep> for EcsStepDestroy
                         ecs_iter_destroy!($w, |$($params)*| {
-                            hook.visit(Visit { world: None, other: $other, ent: $ent, dir: $dir, cols: &mut [$($cols),*] }).iter()
+                            hook.visit(Visit { matched: <MatchedArchetype as Archetype>::ARCHETYPE_ID, world: None, other: $other, ent: $ent, dir: $dir, cols: &mut [$($cols),*] }).iter()
                         });
                         None
                     }
                     QMacro::Find => match key.expect("sim: find needs a key") {
                         Key::A(k) => ecs_find!($w, k, |$($params)*| {
-                            hook.visit(Visit { world: None, other: $other, ent: $ent, dir: $dir, cols: &mut [$($cols),*] })
+                            hook.visit(Visit { matched: <MatchedArchetype as Archetype>::ARCHETYPE_ID, world: None, other: $other, ent: $ent, dir: $dir, cols: &mut [$($cols),*] })
                         }),
                         Key::DA(k) => ecs_find!($w, k, |$($params)*| {
-                            hook.visit(Visit { world: None, other: $other, ent: $ent, dir: $dir, cols: &mut [$($cols),*] })
+                            hook.visit(Visit { matched: <MatchedArchetype as Archetype>::ARCHETYPE_ID, world: None, other: $other, ent: $ent, dir: $dir, cols: &mut [$($cols),*] })
                         }),
                         _ => panic!("sim: site find takes dynamic keys only"),
                     },
@@ -454,16 +454,16 @@ macro_rules! site {
                 match mac {
                     QMacro::IterBorrow => {
                         ecs_iter_borrow!($w, |$($params)*| {
-                            hook.visit(Visit { world: Some($w), other: None, ent: $ent, dir: $dir, cols: &mut [$($cols),*] }).iter()
+                            hook.visit(Visit { matched: <MatchedArchetype as Archetype>::ARCHETYPE_ID, world: Some($w), other: None, ent: $ent, dir: $dir, cols: &mut [$($cols),*] }).iter()
                         });
                         None
                     }
                     QMacro::FindBorrow => match key.expect("sim: find needs a key") {
                         Key::A(k) => ecs_find_borrow!($w, k, |$($params)*| {
-                            hook.visit(Visit { world: Some($w), other: None, ent: $ent, dir: $dir, cols: &mut [$($cols),*] })
+                            hook.visit(Visit { matched: <MatchedArchetype as Archetype>::ARCHETYPE_ID, world: Some($w), other: None, ent: $ent, dir: $dir, cols: &mut [$($cols),*] })
                         }),
                         Key::DA(k) => ecs_find_borrow!($w, k, |$($params)*| {
-                            hook.visit(Visit { world: Some($w), other: None, ent: $ent, dir: $dir, cols: &mut [$($cols),*] })
+                            hook.visit(Visit { matched: <MatchedArchetype as Archetype>::ARCHETYPE_ID, world: Some($w), other: None, ent: $ent, dir: $dir, cols: &mut [$($cols),*] })
                         }),
                         _ => panic!("sim: site find takes dynamic keys only"),
                     },
